@@ -6,7 +6,12 @@ transports, arity of list/map members of the result types, lifetime of a decoded
 from is reused, bursts through a buffer-reusing connection into a real session) and exports their complete case
 products; TLC (spec/CodecWrite.tla) checks the state machine of concurrent writers over a non-atomic io.Writer
 (mutual exclusion => the stream is a sequence of whole frames; without it the frames tear) and exports every
-(case, plan of offers); the Go harness (harness/mcp/c19_codec_test.go) concretises every case
+(case, plan of offers); TLC (spec/CodecSSE.tla) checks the state machine of a byte stream that breaks under a reader (writer of
+SSE events / newline-delimited frames, a channel that cuts the stream at any byte and ends it with io.EOF,
+io.ErrUnexpectedEOF or another read error, the specification's reader, the code-shaped reader, a witness) and exports
+every (stream, cut, end), which harness/mcp/c19_break_test.go runs at every byte offset and every chunking of the Reads
+on the real scanEvents, streamableClientConn.processStream and ioConn.Read; the Go harness
+(harness/mcp/c19_codec_test.go) concretises every case
 with seeded values, runs the real encoders / decoders / framers / sessions and records which members
 survived; the TLA+ monitor spec/CodecMon.tla judges the recorded comparisons (verdict) and compares
 them with the code-shaped expectation (drift).  Level: exploration (see DESIGN.md section 7).
@@ -110,7 +115,57 @@ def sigs_of(e, inv):
         return ["lifetime:burst:%s|size=%s|hold=%s" % (what, c["size"], c["hold"])]
     if k == "ww":
         return ["framing=ndjson:concurrent-writes:frames-torn|writers=%d|mix=%s" % (c["k"], c["mix"])]
+    if k == "sc":
+        return [sc_sig(c, o, inv)]
     return ["?:" + inv]
+
+
+SC_END = {"eof": "cleanEOF", "ueof": "unexpectedEOF", "err": "readError"}
+
+
+def sc_sig(c, o, inv):
+    """The abstract failing case of a stream that breaks: framing, how the stream ended, whether the cut is inside a
+    frame, and what the reader did (who read, the byte offset and the chunking of the Reads are in the replay)."""
+    if c["framing"] == "sse" and c["eol"] == "cr":
+        return "sse-eol=cr:line-ends-not-recognised"
+    n = c["nm"] if c["path"] == "stream" else c["n"]
+    unit = "event" if c["framing"] == "sse" else "frame"
+    where = "inside-" + unit if c["inside"] else ("complete-stream" if c["cut"] == c["len"] else "between-%ss" % unit)
+    if inv == "ScNoGaps":
+        kind = "%s-lost" % unit
+    else:
+        vals = [x for e in o["evs"] for x in (e["name"], e["id"], e["retry"], e["data"])] + \
+               [{"part": "prefix", "other": "other"}.get(o["lastid"], "eq")]
+        if "other" in vals or "panic" in vals:
+            kind = "extra-yield" if len(o["evs"]) > n and "other" not in [x for e in o["evs"][:n] for x in e.values()] else "garbled-yield"
+        else:
+            kind = "truncated-yield"        # a prefix of a written frame (a field cut off or missing) was handed up
+    return "%s-cut:end=%s:%s:%s" % (c["framing"], SC_END[c["end"]], where, kind)
+
+
+def sc_cases(tier):
+    """The state machine of a stream that breaks: design check (the specification's reader; the code-shaped reader breaks the
+    property only in the lead classes), witness (a reader that takes io.ErrUnexpectedEOF for the end), exported cases."""
+    cfg = "CodecSSE_quick.cfg" if tier == "quick" else "CodecSSE_thorough.cfg"
+    res = vlib.run_tlc("CodecSSE", cfg, workers=2, timeout=900, heap_gb=4)
+    vlib.tlc_must_pass(res, cfg)
+    if not res.ok:
+        raise vlib.MachineryError("CodecSSE design check failed: " + str(res.violation or res.stdout[-2000:]))
+    wit = vlib.run_tlc("CodecSSE", "CodecSSE_witness.cfg", workers=1, timeout=300, heap_gb=2)
+    if wit.violation != "CodeLeads":
+        raise vlib.MachineryError("CodecSSE witness: a reader that takes io.ErrUnexpectedEOF for the end of the stream must violate CodeLeads, got %s %s" % (wit.violation, wit.error))
+    skey = lambda c: json.dumps(c, sort_keys=True)
+    streams = {skey(p["c"]): p for p in res.printed if isinstance(p, dict) and p.get("scs")}
+    cases = sorted((p for p in res.printed if isinstance(p, dict) and p.get("sc")),
+                   key=lambda p: (skey(p["c"]), p["cut"], p["end"]))
+    if len(streams) < 20 or len(cases) < 2000 or any(skey(p["c"]) not in streams for p in cases):
+        raise vlib.MachineryError("CodecSSE exported %d streams, %d cases" % (len(streams), len(cases)))
+    if len({(skey(p["c"]), p["cut"], p["end"]) for p in cases}) != len(cases):
+        raise vlib.MachineryError("CodecSSE exported a case twice")
+    leads = {(p["c"]["eol"] == "cr", p["end"]) for p in cases if p["lead"]}
+    if (False, "eof") not in leads or any(e != "eof" for cr, e in leads if not cr):   # vacuity: the known lead class is there
+        raise vlib.MachineryError("CodecSSE: lead classes of the code-shaped reader are %s" % sorted(leads))
+    return res, wit, streams, cases
 
 
 def ww_cases(tier):
@@ -153,6 +208,8 @@ def nontrivial(e):
         return c["shape"] not in ("obj-msg", "obj-notif", "obj-resp") or c["pad"] != "none"
     if k == "ar":
         return c["arity"] != "one"
+    if k == "sc":  # the stream is cut inside a frame, or ends otherwise than by io.EOF
+        return c["inside"] or c["end"] != "eof"
     if k == "ww":  # some offer is made to a writer while another one is inside the underlying writer
         return any(w != c["plan"][0] for w in c["plan"][:1 + c["chunks"][c["plan"][0] - 1]])
     return True
@@ -170,6 +227,10 @@ def run(tier, seed, replay):
         "concurrent writers: the harness' scheduler steps the writer goroutines along the plan without sleeping; between steps it waits until every writer that has not returned "
         "is parked, which it reads from the runtime's goroutine states (runtime.Stack); the underlying io.Writer identifies a writer by its goroutine",
         "lifetime: the owner of a read buffer may reuse it as soon as the decode call has returned (bufio.Scanner semantics); bursts: the tool handlers are held by a gate until the reader has consumed the whole burst",
+        "broken streams: a byte class of CodecSSE (part of a name / of a value) stands for every byte offset inside that name / value: the harness runs every offset "
+        "(values longer than 24 bytes (quick) / 160 bytes (thorough): the edges, the offsets around the readers' buffer sizes and seeded ones), each with the three chunkings of the Reads; "
+        "streamableClientConn.processStream is called on a connection value built by the harness (incoming / done / failed channels only); what it hands to the decoder is seen through "
+        "the messages it delivers, the cursor it returns and the failure it records ('failed to decode event' = a payload that is none of the written ones)",
     ]
     out = vlib.outdir(PID)
     for f in os.listdir(out):  # replay files of earlier runs
@@ -178,10 +239,12 @@ def run(tier, seed, replay):
     # 1. design check + case export by TLC
     from concurrent.futures import ThreadPoolExecutor
     wd = vlib.scratch("tlc-")
-    with ThreadPoolExecutor(max_workers=2) as ex:  # the two design checks side by side
+    with ThreadPoolExecutor(max_workers=3) as ex:  # the three design checks side by side
         fww = ex.submit(ww_cases, tier)
+        fsc = ex.submit(sc_cases, tier)
         res = vlib.run_tlc("Codec", "Codec.cfg", workdir=wd, workers=1, timeout=600, heap_gb=4)
         wres, wwit, wcases = fww.result()
+        sres, swit, sstreams, scases = fsc.result()
     vlib.write_ndjson(os.path.join(wd, TABLES["ww"]), wcases)
     vlib.tlc_must_pass(res, "Codec")
     if not res.ok:
@@ -190,11 +253,17 @@ def run(tier, seed, replay):
     v.add_tlc("Codec(design: Holds(c, Expected(c)) <=> ~Lead(c) on 9 tables; Classify total; witnesses)", res)
     v.add_tlc("CodecWrite(guarded: TypeOK, Contiguous, Finishes on every plan and hand-over; plans exported)", wres)
     v.add_tlc("CodecWrite(unguarded witness: Contiguous violated)", wwit)
+    v.add_tlc("CodecSSE(a stream that breaks: TypeOK, SpecHolds, SpecReports, ChunkIndependent on every cut and end; the code-shaped reader "
+              "breaks the property only in its lead classes (CodeLeads); cases exported)", sres)
+    v.add_tlc("CodecSSE(witness, a reader that takes io.ErrUnexpectedEOF for the end of the stream: CodeLeads violated)", swit)
     counts["ww"] = len(wcases)
-    ncases = sum(counts[k] for k in TABLES)
+    counts["sc"] = len(scases)
+    ncases = sum(counts[k] for k in TABLES) + counts["sc"]
     v.cov["states"] = ncases
     v.cov["transitions"] = ncases
-    v.cov["case_counts"] = {k: counts[k] for k in TABLES}
+    v.cov["case_counts"] = {k: counts[k] for k in list(TABLES) + ["sc"]}
+    v.cov["sc_streams"] = len(sstreams)
+    v.cov["sc_design_leads"] = sum(1 for p in scases if p["lead"])
     v.cov["design_leads"] = {k: counts.get(k + "Leads", 0) for k in ("msg", "val", "req", "vc", "fr", "ar", "lt")}
     v.cov["lead_id_classes"] = counts["leadIds"]
     indir = os.path.join(out, "in")
@@ -207,14 +276,25 @@ def run(tier, seed, replay):
             vlib.write_ndjson(os.path.join(indir, f), rows)
         else:
             os.replace(os.path.join(wd, f), os.path.join(indir, f))
+    skey = lambda c: json.dumps(c, sort_keys=True)
+    if replay:
+        rep = json.load(open(replay))["replay"]
+        sc_in = []
+        if rep.get("k") == "sc":
+            c = rep["c"]
+            base = {f: c[f] for f in ("framing", "shapes", "eol", "colon", "comment")}
+            sc_in = [sstreams[skey(base)], dict({f: c[f] for f in ("cut", "len", "end", "n", "k", "nm", "km", "inside", "exp")}, sc=True, c=base, lead=False)]
+    else:
+        sc_in = list(sstreams.values()) + scases
+    vlib.write_ndjson(os.path.join(indir, "cases_sc.ndjson"), sc_in)
     # 2. the real code
     obs = os.path.join(out, "obs.ndjson")
-    for stale in (obs, obs + ".inflight", obs + ".aborted", obs + ".detail"):
+    for stale in (obs, obs + ".inflight", obs + ".aborted", obs + ".detail", obs + ".sc", obs + ".sc.detail"):
         if os.path.exists(stale):
             os.remove(stale)
     reps = 1 if tier == "quick" else 5
     nfuzz = 0 if replay and json.load(open(replay))["replay"].get("k") != "fuzz" else (20000 if tier == "quick" else 400000)
-    rc, gout, wall = vlib.go_test("mcp", "^TestVerif_C19$", ["mcp/c19_codec_test.go"], timeout=1500,
+    rc, gout, wall = vlib.go_test("mcp", "^TestVerif_C19(Break)?$", ["mcp/c19_break_test.go", "mcp/c19_codec_test.go"], timeout=1500,
                                   env={"VERIF_IN": indir, "VERIF_OUT": obs, "VERIF_SEED": seed, "VERIF_REPS": reps,
                                        "VERIF_FUZZ": nfuzz, "VERIF_TIER": tier, "VERIF_WORKERS": 4})
     vlib.go_must_build(rc, gout, PID)
@@ -271,15 +351,30 @@ def run(tier, seed, replay):
         got = sum(1 for r in rows if r["k"] != "fuzz")
         if got != want:
             raise vlib.MachineryError("harness produced %d of %d case observations" % (got, want))
+    # the streams that break (written first, by TestVerif_C19Break)
+    sc_rows = vlib.read_ndjson(obs + ".sc") if os.path.exists(obs + ".sc") else None
+    if sc_rows is None and not crashed:
+        raise vlib.MachineryError("the C19 harness did not write " + obs + ".sc")
+    if sc_rows is not None:
+        if not replay:
+            want_sc = sum(2 if p["c"]["framing"] == "sse" else 1 for p in scases)
+            seen_sc = {(skey({f: r["c"][f] for f in ("framing", "shapes", "eol", "colon", "comment")}), r["c"]["cut"], r["c"]["end"], r["c"]["path"]) for r in sc_rows}
+            if len(seen_sc) != want_sc:
+                raise vlib.MachineryError("harness ran %d of %d (case, reader) pairs of the broken streams" % (len(seen_sc), want_sc))
+        if os.path.exists(obs + ".sc.detail"):
+            for d in vlib.read_ndjson(obs + ".sc.detail"):
+                detail[len(rows) + d["line"]] = {"line": len(rows) + d["line"], "in": d["in"], "out": d["out"]}
+        rows += sc_rows
+        v.cov["sc_concrete_runs"] = sum(r["cnt"] for r in sc_rows)
     # 3. the monitor judges each distinct (case, outcome) once
     uniq, first = [], {}
     for i, r in enumerate(rows, 1):
-        key = json.dumps({k: r[k] for k in r if k != "rep"}, sort_keys=True)
+        key = json.dumps({k: r[k] for k in r if k not in ("rep", "cnt")}, sort_keys=True)
         if key not in first:
             first[key] = i
             uniq.append((i, r))
     # (three TLC instances side by side, each on a third of the log: the judgement is per line)
-    nchunks = 3 if len(uniq) > 30000 else 1
+    nchunks = 1 if len(uniq) <= 30000 else 3 if len(uniq) <= 120000 else 4
     size = (len(uniq) + nchunks - 1) // nchunks
     chunks = []
     for n in range(nchunks):
@@ -299,10 +394,12 @@ def run(tier, seed, replay):
     v.cov["distinct_outcomes_judged"] = len(uniq)
     v.cov["distinct_nontrivial"] = len({json.dumps([r["k"], r.get("c")], sort_keys=True) for r in rows if r["k"] != "fuzz" and nontrivial(r)})
     v.cov["rule"] = ("complete products of the tables enumerated by TLC (Codec!MsgCaseSet, WireCaseSet, ValCaseSet, ReqCaseSet, VcCaseSet, FrCaseSet, ArCaseSet, "
-                     "LtCaseSet, LbCaseSet) and every (case, plan) of the terminal states of CodecWrite (writers x pieces per frame x interleaving of calls and pieces), "
+                     "LtCaseSet, LbCaseSet), every (case, plan) of the terminal states of CodecWrite (writers x pieces per frame x interleaving of calls and pieces) "
+                     "and every (stream, cut, end) of the terminal states of CodecSSE (event shapes x line ends x layouts x cut after every byte class x end of the stream), run at "
+                     "every byte offset of the class, with three chunkings of the Reads, on scanEvents and processStream (SSE) / ioConn.Read (newline-delimited), "
                      "every case run %d time(s) with fresh seeded values (plans once); non-trivial = framing other than raw, non-plain strings, edge/lossy/string ids, "
                      "invalid or miscased wire shapes, zero-valued / nested / nil / empty values, frames other than a plain single message, nil / empty members, "
-                     "every lifetime and burst case, plans that offer a step to a second writer while the first is inside the underlying writer" % reps)
+                     "every lifetime and burst case, plans that offer a step to a second writer while the first is inside the underlying writer, streams cut inside a frame or ended otherwise than by io.EOF" % reps)
     v.cov["exhaustive"] = not replay and not aborted and not crashed
     by_kind = {}
     for r in rows:
@@ -312,6 +409,11 @@ def run(tier, seed, replay):
         ln, r = uniq[i]
         v.sample({"obs": r, "in": detail.get(ln, {}).get("in", "")[:200]}, limit=5)
     nviol, drift = {}, {}
+    # (a stream with bare CRs: the whole stream, cleanly ended, is the example to show)
+    def later(f):
+        e = uniq[f["line"] - 1][1]
+        return e["k"] == "sc" and e["c"]["eol"] == "cr" and not (e["c"]["cut"] == e["c"]["len"] and e["c"]["end"] == "eof")
+    fails.sort(key=later)
     for f in fails:
         ln, e = uniq[f["line"] - 1]
         d = detail.get(ln, {})
@@ -327,8 +429,8 @@ def run(tier, seed, replay):
             v.violation(sig, "real codec outcome violates %s (input %s -> %s)" % (f["monfail"], d.get("in", "")[:300], d.get("out", "")[:300]),
                         {"k": e["k"], "c": e.get("c"), "o": e.get("o", e), "in": d.get("in"), "out": d.get("out"), "inv": f["monfail"]})
     for (k, o), (n, c) in sorted(drift.items(), key=lambda kv: -kv[1][0]):
-        v.drift.append("%d observation(s) of table %s differ from the code-shaped expectation of CodecDefs: outcome=%s e.g. case=%s" % (
-            n, k, o, json.dumps(c, sort_keys=True)))
+        v.drift.append("%d observation(s) of table %s differ from the code-shaped expectation of %s: outcome=%s e.g. case=%s" % (
+            n, k, "CodecSSEDefs (reader \"code\")" if k == "sc" else "CodecDefs", o, json.dumps(c, sort_keys=True)))
     v.cov["states"] = v.cov["transitions"] = ncases  # one "state" per abstract case of the decision tables
     v.cov["failing_observations_by_signature"] = dict(sorted(nviol.items(), key=lambda kv: -kv[1])[:40])
     return v.finish()
